@@ -11,20 +11,28 @@ import (
 	"testing"
 	"time"
 
+	"github.com/btcsuite/btcd/btcec/v2/ecdsa"
+	"github.com/btcsuite/btcd/btcutil/v2"
+	"github.com/lightningnetwork/lnd/chainntnfs"
 	"github.com/lightningnetwork/lnd/channeldb"
 	"github.com/lightningnetwork/lnd/chanstate"
+	"github.com/lightningnetwork/lnd/clock"
 	"github.com/lightningnetwork/lnd/internal/verifkit"
 	"github.com/lightningnetwork/lnd/kvdb"
+	"github.com/lightningnetwork/lnd/lntest/mock"
 	"github.com/lightningnetwork/lnd/lnwire"
 	"github.com/lightningnetwork/lnd/ticker"
 )
 
 // C08, switch-level executor (spec/Forwarding/SwitchAck.tla): ONE real Switch with its real circuit map and a
-// real forwarding package of the outgoing channel in the switch's own database (as in production, unlike the
-// three-hop fixture where every channel has its own database), two mock links.  It replays TLC-generated
-// sequences of Pipe / Lock / Commit / Tick / Restart and records after every step what the real switch shows:
-// circuits pending/open, the SettleFailFilter bit read back from the database, and whether a packet was
-// handed to the incoming link.  No judgement here: SwitchAckTrace.tla is the judge.
+// real forwarding package of the outgoing channel - a real lnwallet channel - in the switch's own database (as
+// in production, unlike the three-hop fixture where every channel has its own database), two mock links towards
+// the switch, and a real (never started) channelLink over the outgoing channel whose loadAndRemove is the
+// garbage collector.  It replays TLC-generated sequences of Pipe / Revoke / Hand / Lock / Commit / Tick / GC /
+// Restart and records after every step what the real node shows: circuits pending/open, the package as read
+// back from the database (present, FwdState beyond LockedIn, SettleFailFilter bit), and whether a packet was
+// handed to the incoming link.  A restart stops the switch and builds a new one (New + Start:
+// reforwardResponses) on the same database.  No judgement here: SwitchAckTrace.tla is the judge.
 
 type c08SwStep struct {
 	A    string `json:"a"`
@@ -45,22 +53,54 @@ type c08SwRun struct {
 	bob      *mockServer
 	preimage [32]byte
 	held     *htlcPacket // the response the incoming link has read and not committed
-	written  bool        // the package entry exists
+	written  bool        // the package entry has been written
+	filtered bool        // its forwarding filter has been written
+	gc       *channelLink
 	kind     string
 }
 
 const c08SwHeight = 1
 
-func (r *c08SwRun) boot(first bool) error {
-	r.cdb = channeldb.OpenForTesting(r.t, r.path)
-	s, err := initSwitchWithDB(testStartingHeight, r.cdb)
+// newSwitch is initSwitchWithDB with two differences: the circuit map does not trim by channel state (the
+// outgoing channel's commitment holds no HTLC: the links are mocks), and start-up reads the forwarding packages
+// of both channels.
+func (r *c08SwRun) newSwitch() (*Switch, error) {
+	cfg := Config{
+		DB:                   r.cdb,
+		FetchAllOpenChannels: func() ([]*chanstate.OpenChannel, error) { return nil, nil },
+		FetchAllChannels: func() ([]*chanstate.OpenChannel, error) {
+			return []*chanstate.OpenChannel{{ShortChannelID: r.scidIn}, {ShortChannelID: r.scidOut}}, nil
+		},
+		FetchClosedChannels: func(bool) ([]*chanstate.ChannelCloseSummary, error) { return nil, nil },
+		SwitchPackager:      channeldb.NewSwitchPackager(),
+		FwdingLog:           &mockForwardingLog{events: make(map[time.Time]channeldb.ForwardingEvent)},
+		FetchLastChannelUpdate: func(scid lnwire.ShortChannelID) (*lnwire.ChannelUpdate1, error) {
+			return &lnwire.ChannelUpdate1{ShortChannelID: scid}, nil
+		},
+		Notifier: &mock.ChainNotifier{
+			SpendChan: make(chan *chainntnfs.SpendDetail),
+			EpochChan: make(chan *chainntnfs.BlockEpoch),
+			ConfChan:  make(chan *chainntnfs.TxConfirmation),
+		},
+		FwdEventTicker:         ticker.NewForce(DefaultFwdEventInterval),
+		LogEventTicker:         ticker.NewForce(DefaultLogInterval),
+		AckEventTicker:         ticker.NewForce(DefaultAckInterval),
+		HtlcNotifier:           &mockHTLCNotifier{},
+		Clock:                  clock.NewDefaultClock(),
+		MailboxDeliveryTimeout: time.Hour,
+		MaxFeeExposure:         DefaultMaxFeeExposure,
+		SignAliasUpdate: func(*lnwire.ChannelUpdate1) (*ecdsa.Signature, error) {
+			return testSig, nil
+		},
+		IsAlias: isAlias,
+	}
+	return New(cfg, testStartingHeight)
+}
+
+func (r *c08SwRun) boot() error {
+	s, err := r.newSwitch()
 	if err != nil {
 		return err
-	}
-	if !first {
-		s.cfg.FetchAllChannels = func() ([]*chanstate.OpenChannel, error) {
-			return []*chanstate.OpenChannel{{ShortChannelID: r.scidIn}, {ShortChannelID: r.scidOut}}, nil
-		}
 	}
 	if err := s.Start(); err != nil {
 		return err
@@ -99,7 +139,7 @@ func (r *c08SwRun) response(withRef bool) *htlcPacket {
 	return pkt
 }
 
-// lock writes the package entry (what ReceiveRevocation does) the first time.
+// writePkg writes the package (what ReceiveRevocation does): FwdStateLockedIn.
 func (r *c08SwRun) writePkg() error {
 	if r.written {
 		return nil
@@ -109,31 +149,40 @@ func (r *c08SwRun) writePkg() error {
 		[]channeldb.LogUpdate{{LogIndex: 0, UpdateMsg: r.response(false).htlc}})
 	packager := channeldb.NewChannelPackager(r.scidOut)
 	return kvdb.Update(r.cdb, func(tx kvdb.RwTx) error {
-		if err := packager.AddFwdPkg(tx, fwdPkg); err != nil {
-			return err
-		}
-		return packager.SetFwdFilter(tx, c08SwHeight, fwdPkg.FwdFilter)
+		return packager.AddFwdPkg(tx, fwdPkg)
 	}, func() {})
 }
 
-func (r *c08SwRun) observe(a string, got int) verifkit.Rec {
-	acked := 0
-	if r.written {
-		pkgs, err := r.s.loadChannelFwdPkgs(r.scidOut)
-		if err == nil {
-			if len(pkgs) == 0 {
-				acked = 1 // fully acked packages may be gone
-			} else if pkgs[0].SettleFailFilter.Contains(0) {
-				acked = 1
-			}
+// setFilter writes the package's forwarding filter (what processRemoteAdds does last): FwdStateProcessed.
+func (r *c08SwRun) setFilter() error {
+	if r.filtered {
+		return nil
+	}
+	r.filtered = true
+	return r.gc.channel.SetFwdFilter(c08SwHeight, channeldb.NewPkgFilter(0))
+}
+
+func (r *c08SwRun) observe(a string, got int, note string) verifkit.Rec {
+	npkg, proc, acked := 0, 0, 0
+	pkgs, err := r.s.loadChannelFwdPkgs(r.scidOut)
+	if err != nil {
+		note += " load: " + err.Error()
+	}
+	if len(pkgs) > 0 {
+		npkg = len(pkgs)
+		if pkgs[0].State != channeldb.FwdStateLockedIn {
+			proc = 1
+		}
+		if pkgs[0].SettleFailFilter.Contains(0) {
+			acked = 1
 		}
 	}
 	return verifkit.Rec{"a": a, "kind": r.kind, "pending": r.s.circuits.NumPending(), "open": r.s.circuits.NumOpen(),
-		"acked": acked, "got": got}
+		"npkg": npkg, "proc": proc, "acked": acked, "got": got, "note": note}
 }
 
 func c08SwExec(t *testing.T, name string, steps []c08SwStep) ([]verifkit.Rec, error) {
-	r := &c08SwRun{t: t, path: t.TempDir(), kind: steps[0].Kind}
+	r := &c08SwRun{t: t, kind: steps[0].Kind}
 	r.chanIn, r.chanOut, r.scidIn, r.scidOut = genIDs()
 	var err error
 	if r.alice, err = newMockServer(t, "alice", testStartingHeight, nil, testDefaultDelta); err != nil {
@@ -142,8 +191,20 @@ func c08SwExec(t *testing.T, name string, steps []c08SwStep) ([]verifkit.Rec, er
 	if r.bob, err = newMockServer(t, "bob", testStartingHeight, nil, testDefaultDelta); err != nil {
 		return nil, err
 	}
+	// the outgoing channel is a real channel; its database is the node's database
+	const amt = btcutil.SatoshiPerBitcoin
+	lc, _, err := createTestChannel(t, alicePrivKey, bobPrivKey, amt, amt, 0, 0, r.scidOut)
+	if err != nil {
+		return nil, err
+	}
+	r.cdb = testChannelStateDB(t, lc.channel).GetParentDB()
+	gc, ok := NewChannelLink(ChannelLinkConfig{DisallowQuiescence: true}, lc.channel).(*channelLink)
+	if !ok {
+		return nil, fmt.Errorf("not a channelLink")
+	}
+	r.gc = gc
 	r.preimage = [32]byte{7}
-	if err := r.boot(true); err != nil {
+	if err := r.boot(); err != nil {
 		return nil, err
 	}
 	defer func() { _ = r.s.Stop() }()
@@ -163,62 +224,84 @@ func c08SwExec(t *testing.T, name string, steps []c08SwStep) ([]verifkit.Rec, er
 		return nil, fmt.Errorf("add not delivered to the outgoing link")
 	}
 	recs := []verifkit.Rec{{"a": "Reset", "kind": r.kind, "plan": name, "pending": r.s.circuits.NumPending(),
-		"open": r.s.circuits.NumOpen(), "acked": 0, "got": 0}}
+		"open": r.s.circuits.NumOpen(), "npkg": 0, "proc": 0, "acked": 0, "got": 0, "note": ""}}
 	for _, st := range steps {
-		got := 0
-		switch st.A {
-		case "Pipe":
-			if err := r.s.ForwardPackets(nil, r.response(false)); err != nil {
-				return nil, err
-			}
-			got = r.recvIn()
-		case "Lock":
-			if err := r.writePkg(); err != nil {
-				return nil, err
-			}
-			if err := r.s.ForwardPackets(nil, r.response(true)); err != nil {
-				return nil, err
-			}
-			got = r.recvIn()
-		case "Commit":
-			// (if the link holds nothing - the model says it must - there is nothing to commit;
-			// the step is recorded all the same and the trace spec has already seen the difference)
-			if r.held != nil {
-				if err := r.in.completeCircuit(r.held); err != nil {
-					return nil, err
-				}
-				r.held = nil
-			}
-		case "Tick":
-			tk, ok := r.s.cfg.AckEventTicker.(*ticker.Force)
-			if !ok {
-				return nil, fmt.Errorf("no force ticker")
-			}
-			for i := 0; i < 2; i++ {
-				select {
-				case tk.Force <- time.Now():
-				case <-time.After(5 * time.Second):
-					return nil, fmt.Errorf("switch did not accept the ack tick")
-				}
-			}
-			// let the forwarder finish the second tick's batch
-			time.Sleep(20 * time.Millisecond)
-		case "Restart":
-			if err := r.s.Stop(); err != nil {
-				return nil, err
-			}
-			if err := r.cdb.Close(); err != nil {
-				return nil, err
-			}
-			r.held = nil
-			if err := r.boot(false); err != nil {
-				return nil, err
-			}
-			got = r.recvIn()
+		// a step the real node refuses is recorded with what it shows, and the behaviour ends there: the
+		// trace spec judges the recorded prefix
+		got, err := r.step(st.A)
+		note := ""
+		if err != nil {
+			note = err.Error()
 		}
-		recs = append(recs, r.observe(st.A, got))
+		recs = append(recs, r.observe(st.A, got, note))
+		if err != nil {
+			break
+		}
 	}
 	return recs, nil
+}
+
+func (r *c08SwRun) step(a string) (int, error) {
+	switch a {
+	case "Pipe":
+		if err := r.s.ForwardPackets(nil, r.response(false)); err != nil {
+			return 0, err
+		}
+		return r.recvIn(), nil
+	case "Revoke":
+		return 0, r.writePkg()
+	case "Hand":
+		if err := r.s.ForwardPackets(nil, r.response(true)); err != nil {
+			return 0, err
+		}
+		return r.recvIn(), nil
+	case "Lock":
+		// ReceiveRevocation, processRemoteSettleFails, processRemoteAdds (no adds: the filter only)
+		if err := r.writePkg(); err != nil {
+			return 0, err
+		}
+		if err := r.s.ForwardPackets(nil, r.response(true)); err != nil {
+			return 0, err
+		}
+		got := r.recvIn()
+		return got, r.setFilter()
+	case "Commit":
+		// (if the link holds nothing - the model says it must - there is nothing to commit;
+		// the step is recorded all the same and the trace spec has already seen the difference)
+		if r.held != nil {
+			if err := r.in.completeCircuit(r.held); err != nil {
+				return 0, err
+			}
+			r.held = nil
+		}
+	case "Tick":
+		tk, ok := r.s.cfg.AckEventTicker.(*ticker.Force)
+		if !ok {
+			return 0, fmt.Errorf("no force ticker")
+		}
+		for i := 0; i < 2; i++ {
+			select {
+			case tk.Force <- time.Now():
+			case <-time.After(5 * time.Second):
+				return 0, fmt.Errorf("switch did not accept the ack tick")
+			}
+		}
+		// let the forwarder finish the second tick's batch
+		time.Sleep(20 * time.Millisecond)
+	case "GC":
+		// the real garbage collector of the outgoing channel's link (link start / FwdPkgGCTicker)
+		return 0, r.gc.loadAndRemove()
+	case "Restart":
+		if err := r.s.Stop(); err != nil {
+			return 0, err
+		}
+		r.held = nil
+		if err := r.boot(); err != nil {
+			return 0, err
+		}
+		return r.recvIn(), nil
+	}
+	return 0, nil
 }
 
 func TestVerifC08SwitchAck(t *testing.T) {
